@@ -56,10 +56,10 @@ PROPS = {
     "C16": dict(suites=[("family", 100, 4, 1500, 16), ("clonescope", 1, 4, 2, 16)], corr=["insert", "delete", "search", "display", "clone"], oracles=["FUN", "C09", "C08"]),
     "C17": dict(suites=[("oci", 4, 8, 5, 16)], corr=["search"], oracles=["C17"]),
     "C18": dict(suites=[("threads", 30, 2, 600, 8), ("sibs", 1, 4, 3, 16)], corr=["search", "display"], oracles=["C18", "FUN"]),
-    "C19": dict(suites=[("hist", 100, 4, 1500, 16), ("pairs", 1, 4, 2, 16), ("regs", 1, 4, 2, 8)], corr=["insert", "delete", "constraint"], oracles=["C19", "C08", "C09"]),
+    "C19": dict(suites=[("hist", 100, 4, 1500, 16), ("pairs", 1, 4, 2, 16), ("regs", 1, 4, 2, 8)], corr=["insert", "delete", "constraint", "render"], oracles=["C19", "C08", "C09"]),
 }
 
-FACTS = {"C13": ["builtin_impls", "builtin_checks", "builtin_registrations"], "C11": ["invalid_param_chars"], "C03": ["search_kind_order"],
+FACTS = {"C19": ["error_formats", "conflict_list_format"], "C13": ["builtin_impls", "builtin_checks", "builtin_registrations"], "C11": ["invalid_param_chars"], "C03": ["search_kind_order"],
          "C15": ["display_kind_order"], "C18": ["interior_mutability"], "C17": ["oci_routes", "oci_name_pattern"], "C07": ["panic_sites"]}
 # which measured count is "distinct and non-trivial" for a property, and why
 NT = {
